@@ -11,17 +11,20 @@ pub open spec fn find_brace(l: Seq<char>, from: int) -> int decreases l.len() - 
 }
 pub open spec fn backticks3() -> Seq<char> { seq!['`', '`', '`'] }
 /// what counts as the opening line of a code block: exactly ``` , or a run of >= 3 backticks followed by an info string;
-/// the info string is split at the first `{` after its first char into language (trailing whitespace trimmed) and config.
+/// the info string is split at the first `{` after its first char into language and config, each with its trailing whitespace trimmed
+/// (a fence line `` ```scrut `` + blank is a scrut fence; `{timeout: 3s}` + blank is that configuration).
 /// Result: (backtick run, language, config text).
 pub open spec fn cbs(l: Seq<char>) -> Option<(Seq<char>, Seq<char>, Seq<char>)> {
     if l == backticks3() { Some((l, Seq::empty(), Seq::empty())) }
     else {
         let k = tick_run(l);
-        if k >= l.len() || k < 3 { None }
+        if k < 3 { None }
+        // nothing but (more than three) backticks: a fence without info string
+        else if k >= l.len() { Some((l, Seq::empty(), Seq::empty())) }
         else {
             let b = find_brace(l, k + 1);
-            if b >= l.len() { Some((l.take(k), l.skip(k), Seq::empty())) }
-            else { Some((l.take(k), str_trim_end(l.subrange(k, b)), l.skip(b))) }
+            if b >= l.len() { Some((l.take(k), str_trim_end(l.skip(k)), Seq::empty())) }
+            else { Some((l.take(k), str_trim_end(l.subrange(k, b)), str_trim_end(l.skip(b)))) }
         }
     }
 }
@@ -114,7 +117,10 @@ pub proof fn lemma_comment_not_fence(l: Seq<char>, c: Seq<char>)
     requires cbs(l) is Some, is_comment_line(c),
     ensures !is_prefix_of(cbs_ticks(l), c),
 {
-    if l != backticks3() { assert(tick_run(l) >= 3); assert(l.len() > 0 && l[0] == '`'); assert(l.take(tick_run(l))[0] == l[0]); }
+    if l != backticks3() {
+        assert(tick_run(l) >= 3); assert(l.len() > 0 && l[0] == '`');
+        if tick_run(l) < l.len() { assert(l.take(tick_run(l))[0] == l[0]); }
+    }
     assert(cbs_ticks(l).len() > 0 && cbs_ticks(l)[0] == '`');
 }
 /// the iterator has consumed the first (number - number0) lines of r0
